@@ -1638,6 +1638,39 @@ Proof.
       * apply Nat.eqb_neq in G. lia.
       * apply negb_false_true in G. destruct (cst o); try discriminate. apply negb_true_iff in G.
         destruct B as [B|B]; [cbn in B; discriminate|congruence].
+  - (* LoopEnd: under loop_outlives_cleanup nothing that is dropped unrun was still needed *)
+    destruct (alive s || is_some (find_user (conns s) 0) || existsb is_addhack (pending s)) eqn:U; [exact I|].
+    apply orb_false_elim in U. destruct U as [U U3]. apply orb_false_elim in U. destruct U as [Al U2].
+    cbn in Hc. unfold loop_outlives_cleanup in Hc. apply andb_prop in Hc. destruct Hc as [Hch Hcs].
+    assert (Ech : k_chan s = None) by (destruct (k_chan s); [discriminate|reflexivity]).
+    unfold loop_end. cbn [k_chan set_timers set_pending]. rewrite Ech. apply wpT_ret.
+    rewrite forallb_forall in Hcs.
+    assert (Hdone : forall c o, nth_error (conns s) c = Some o -> calive o = true -> cst o = CDisconnected /\ creg o = false).
+    { intros c o Ho Ha. specialize (Hcs o (nth_error_In _ _ Ho)). unfold conn_done in Hcs. rewrite Ha in Hcs. cbn in Hcs.
+      destruct (cst o); try discriminate. split; auto. destruct (creg o); [discriminate|reflexivity]. }
+    pose proof K as K0. kdestr K0. rewrite Ech in Kch. destruct Kch as [_ Kst].
+    destruct (X Al) as (X1 & X2 & X3).
+    unfold Inv0. split; [|split; [|split; [|exact X]]].
+    + split; cbn; rewrite ?Ech; unfold nretry, nstart; cbn; auto; try congruence; try lia.
+      * intros [Z|Z]; [congruence|exfalso; apply Z; reflexivity].
+      * rewrite X1. cbn. lia.
+    + unfold Kdc. cbn. congruence.
+    + destruct C as [D C]. split; [exact D|]. cbn. pose proof C as C0. cdestr C0.
+      pose proof (Cde Al) as Cn0. rewrite Cn0 in *.
+      split.
+      * intros f [].
+      * auto.
+      * intros c Z. discriminate.
+      * exact Ccb.
+      * exact Cst.
+      * intros c o Ho Ha Hs Hr. destruct (Hdone _ _ Ho Ha). congruence.
+      * intros c o Ho Ha [Hl|Hr] _; destruct (Hdone _ _ Ho Ha) as [Hs Hr']; [rewrite Hs in Hl; discriminate|congruence].
+      * intros c o Ho Ha. pose proof (Cdd _ _ Ho Ha) as Z. unfold refsC in *. rewrite Ho in *. cbn. lia.
+      * intros c [].
+      * intros c [].
+      * intros c [].
+      * exact Logic.I.
+      * intros c o Z. discriminate.
 Qed.
 
 (* ------------------------------------------------------------------ the invariant holds initially and along every admissible step *)
